@@ -3,7 +3,7 @@ package refnum
 import "testing"
 
 func TestSelf(t *testing.T) {
-	for _, e := range SelfTest(200000) {
+	for _, e := range SelfTest(20000) {
 		t.Error(e)
 	}
 	t.Logf("%d ops", len(Ops()))
